@@ -563,6 +563,7 @@ func (e *engine) eval() error {
 			return err
 		}
 		for {
+			e.verifRoundStart()
 			newDeltaStore := factstore.NewMultiIndexedArrayInMemoryStore()
 			var newTemporalDeltaStore factstore.TemporalFactStore
 			if e.temporalStore != nil {
